@@ -78,7 +78,7 @@ PROPS = {
               ["Zap.C08_dict", "Zap.C08_stale_1hit_counterexample", "Zap.C08_merge_writes_wf",
                "Zap.C08Facts.sideCondition_holds", "Zap.C08Facts.read_clears_1hit", "Zap.C08Facts.count_reads_reinitialised"],
               MERGE_FILES + ["ZapProofs/Props/C08Facts.lean"]),
-    "C10": _p([{"gen": "C10"}, {"gen": "C10", "vectors": True, "seed_offset": 13},
+    "C10": _p([{"regress": "d9_empty_after_nonempty.script"}, {"gen": "C10"}, {"gen": "C10", "vectors": True, "seed_offset": 13},
                {"gen": "C10", "race": True, "seed_offset": 29, "n": {"quick": 12, "thorough": 200}}],
               ["ZapProofs.Props.C10", "ZapProofs.Props.C11", "ZapProofs.Props.Codec"],
               ["Zap.C10.c10SideCondition_holds", "Zap.C10.C10_complete", "Zap.C10.C10_resetSafe", "Zap.C10.C10_no_stale",
@@ -115,7 +115,7 @@ PROPS = {
                "Zap.C20.C20_concurrent_release"],
               THEORY_FILES + ["ZapProofs/Props/C20.lean"],
               partial="munmap / close(fd) are OS behaviour: observed through /proc, not modelled"),
-    "C09": _p([{"frozen": "default"}, {"frozen": "big"}, {"frozen": "vectors", "vectors": True}, {"gen": "C09"}, {"gen": "C09", "vectors": True, "seed_offset": 13}],
+    "C09": _p([{"regress": "d9_empty_after_nonempty.script"}, {"frozen": "default"}, {"frozen": "big"}, {"frozen": "vectors", "vectors": True}, {"gen": "C09"}, {"gen": "C09", "vectors": True, "seed_offset": 13}],
               ["ZapProofs.Props.Codec", "ZapProofs.Props.C04", "ZapProofs.Props.C09Bytes"],
               ["Zap.Props.C09Bytes." + t for t in (
                   "C09_postings_roundtrip", "C09_numLocsBytes", "C09_skipBytes", "C09_decLocs_block", "C09_empty_loc_stream",
